@@ -71,6 +71,28 @@ def owner_fn(path):
     return cur
 
 
+def _panic_path_infeasible(r):
+    """the last branch condition on the way into a panicking call is refuted by the facts recorded before it (linear
+    arithmetic over the path facts: e.g. `page <= 7` refutes `0x20000 < (page + 1) << 14`)"""
+    from . import tapeinv
+    last = None
+    for c in reversed(r.pc):
+        if c[0] in ("eq", "ne") and isinstance(c[1], T) and c[1].bits == 1 and not c[1].is_const():
+            last = c
+            break
+    if last is None:
+        return False
+    cond = last[1]
+    taken = last[2] if last[0] == "eq" else (1 if 0 in last[2] else 0 if 1 in last[2] else None)
+    if taken not in (0, 1):
+        return False
+    before = dict((k, v) for k, v in r.facts.items() if k is not cond)
+    try:
+        return bool(tapeinv._prove_bool(before, [], cond, 1 - taken))
+    except Exception:
+        return False
+
+
 def site_key(entry, s):
     fn = re.sub(r"^rustzx_core::|^vtx::|^rustzx_utils::", "", owner_fn(s["fn"]))
     kind = s["kind"]
@@ -127,11 +149,22 @@ def run(chk):
                     except Exception:
                         pass
                 inv.setdefault(site_key(entry, s), []).append((entry, s, r))
+            if r.outcome == "panic" and _panic_path_infeasible(r):
+                n_lia[0] += 1       # the branch into the panic contradicts the comparisons made before it
+                continue
             if r.outcome == "panic":
                 d = r.detail
                 fn = re.sub(r"^rustzx_core::|^vtx::|^rustzx_utils::", "", str(d[2]) if len(d) > 2 else "?")
                 callee = str(d[1]).split("::")[-1]
                 k = "%s/panic/%s" % (fn, callee)
+                # a panic inside a shared helper is judged per calling function: a reviewed argument for one caller
+                # says nothing about another
+                stack = [x for x in getattr(r, "stack", []) if x in prog.fns and prog.fns[x].local]
+                if len(stack) >= 2 and len(d) > 2 and cc.strip_closure(stack[-1]) == cc.strip_closure(str(d[2])):
+                    helper = cc.strip_closure(stack[-1])
+                    ncallers = len(set(cc.strip_closure(x.fn.path) for x in _OWNER["cg"].callers_of(helper)))
+                    if ncallers > 1:
+                        k += "@" + re.sub(r"^rustzx_core::|^vtx::|^rustzx_utils::", "", owner_fn(stack[-2]))
                 inv.setdefault(k, []).append((entry, {"kind": "panic", "fn": d[2] if len(d) > 2 else "?", "loc": d[3] if len(d) > 3 else "?", "cond": None}, r))
             if r.outcome == "unreachable":
                 k = "%s/unreachable" % re.sub(r"^rustzx_core::", "", str(r.detail[0]))
@@ -224,6 +257,7 @@ def run(chk):
         st.store[("h", "dst")] = SymArr("dst", ("int", 8, False, False), tm.sym("DSTLEN", 64))
         rs = w.run(prog.fn(c[0]), [Ref(("h", "cur"), (), True)] + args, genv={"T": ("param", "T", 0)}, state=st)
         collect("BufferCursor::%s" % meth, rs)
+    seek_arguments(chk, prog, framed=tinv_methods)
     # VTX
     vtx(chk, prog, collect)
     # ---------------- verdicts
@@ -254,6 +288,121 @@ def run(chk):
     return chk.finish(EXPL)
 
 
+def seek_arguments(chk, prog, framed=()):
+    """The reviewed addition in BufferCursor::seek (data.len() + offset, pos + offset) rests on the offsets being the
+    loaders' own constants: every call of SeekableAsset::seek in the core passes SeekFrom::Start(anything) (no addition)
+    or End / Current with a constant offset.  Seeks of the TAP block reader are exempt: T-INV proves where each of them
+    lands (the next block header), which bounds the offset by the block size."""
+    from zx import scan
+    SF = prog.adt_path("rustzx_core", "SeekFrom")
+    names = prog.variant_names(SF)
+    TR = "rustzx_core::host::io::SeekableAsset::seek"
+    impls = set(item for im, item in prog.impl_candidates(TR))
+    n = 0
+    for fn in prog.fns.values():
+        if not fn.local or fn.crate != "rustzx_core" or fn.path in impls:
+            continue
+        for body, bi, t in scan.call_sites(prog, fn, lambda tg: TR in tg or bool(impls & set(tg))):
+            n += 1
+            if cc.strip_closure(fn.path) in framed:
+                chk.ok()
+                continue
+            arg = t["args"][1] if len(t["args"]) > 1 else None
+            verdict = None
+            if arg and arg[0] in ("cp", "mv") and not arg[1]["p"]:
+                defs = [st_[2] for b in body["blocks"] for st_ in b["s"] if st_[0] == "=" and st_[1]["l"] == arg[1]["l"] and not st_[1]["p"]]
+                if defs and all(d[0] == "agg" and d[1].get("path") == SF for d in defs):
+                    verdict = True
+                    for d in defs:
+                        vn = names[d[1].get("variant") or 0]
+                        off = d[2][0] if d[2] else None
+                        if vn != "Start" and not (off and off[0] == "c"):
+                            verdict = "%s(%s)" % (vn, "variable")
+            elif arg and arg[0] == "c":
+                verdict = True
+            chk.check(verdict is True, "T-GUARD/seek-arguments/%s" % re.sub(r"^rustzx_core::", "", cc.strip_closure(fn.path)),
+                      "%s seeks with %s (%s): BufferCursor::seek adds a relative offset to the length / position without a check" % (
+                          fn.path.split("::")[-1], verdict or "an argument that is not a SeekFrom literal", fn.loc(t.get("span"))))
+    chk.count("seek-call-sites", n)
+    chk.floor("seek-call-sites", 8)
+
+
+def vtx_frequency_guard(chk, prog):
+    """The reviewed division in Player::new (sample_rate / player_frequency) rests on Vtx::load never returning a tune with
+    frequency 0.  Must-pass-through on the CFG of Vtx::load: the local that ends up in the `player_frequency` field of the
+    constructed Vtx is compared with a constant, and the construction is reachable only over the branch of that comparison
+    which the value 0 does not take."""
+    from zx import scan
+    VTXL = prog.fn_path("vtx", "Vtx::load")
+    VTX_ = prog.adt_path("vtx", "Vtx")
+    fn = prog.fn(VTXL)
+    key = "T-GUARD/Vtx::load/player-frequency"
+    fi = prog.field_index(VTX_, "player_frequency")
+    blocks = fn.body["blocks"]
+    aggs = [(bi, st_) for bi, b in enumerate(blocks) if not b.get("cleanup") for st_ in b["s"]
+            if st_[0] == "=" and st_[2][0] == "agg" and st_[2][1].get("path") == VTX_]
+    if len(aggs) != 1:
+        chk.undecided_(key + "/anchor", "Vtx::load constructs the tune at %d places" % len(aggs))
+        return
+    abi, ast_ = aggs[0]
+    op = ast_[2][2][fi]
+    if op[0] not in ("cp", "mv") or op[1]["p"]:
+        chk.undecided_(key + "/anchor", "the player frequency stored in the tune is not a plain local: %s" % (op,))
+        return
+    # aliases: locals connected by plain copies / moves
+    alias = {op[1]["l"]}
+    changed = True
+    while changed:
+        changed = False
+        for b in blocks:
+            for st_ in b["s"]:
+                if st_[0] == "=" and not st_[1]["p"] and st_[2][0] == "use" and st_[2][1][0] in ("cp", "mv") and not st_[2][1][1]["p"]:
+                    x, y = st_[1]["l"], st_[2][1][1]["l"]
+                    if (x in alias) != (y in alias):
+                        alias |= {x, y}
+                        changed = True
+    OPS = {"Eq": lambda a_, c: a_ == c, "Ne": lambda a_, c: a_ != c, "Lt": lambda a_, c: a_ < c, "Le": lambda a_, c: a_ <= c,
+           "Gt": lambda a_, c: a_ > c, "Ge": lambda a_, c: a_ >= c}
+    succ = dict((i, [t for t in scan.successors(b["t"]) if not blocks[t].get("cleanup")]) for i, b in enumerate(blocks))
+    guards = 0
+    ok = False
+    for bi, b in enumerate(blocks):
+        t = b["t"]
+        if t["k"] != "switch" or t["discr"][0] not in ("cp", "mv"):
+            continue
+        d = t["discr"][1]["l"]
+        for st_ in b["s"]:
+            if st_[0] == "=" and st_[1]["l"] == d and st_[2][0] == "bin" and st_[2][1] in OPS:
+                a_, c_ = st_[2][2], st_[2][3]
+                flip = False
+                if a_[0] == "c":
+                    a_, c_, flip = c_, a_, True
+                if a_[0] in ("cp", "mv") and not a_[1]["p"] and a_[1]["l"] in alias and c_[0] == "c" and "int" in (c_[1].get("v") or {}):
+                    cv = int(c_[1]["v"]["int"])
+                    opn = st_[2][1]
+                    truth0 = OPS[opn](cv, 0) if flip else OPS[opn](0, cv)
+                    # switch on a bool: arms [[0, X]] otherwise Y  (false -> X, true -> Y)
+                    arms = dict((v, tg) for v, tg in t["arms"])
+                    tgt_false = arms.get(0, t.get("otherwise"))
+                    tgt_true = arms.get(1, t.get("otherwise"))
+                    nonzero_arm = tgt_false if truth0 else tgt_true
+                    guards += 1
+                    # reachability of the construction from the entry without the edge bi -> nonzero_arm
+                    seen, work = set(), [0]
+                    while work:
+                        n_ = work.pop()
+                        if n_ in seen:
+                            continue
+                        seen.add(n_)
+                        for s2 in succ[n_]:
+                            if n_ == bi and s2 == nonzero_arm and tgt_false != tgt_true:
+                                continue
+                            work.append(s2)
+                    if abi not in seen:
+                        ok = True
+    chk.check(ok, key, "Vtx::load can return a tune whose player frequency was never found different from 0 on the way (%d comparisons of it with a constant found): Player::new divides by it" % guards)
+
+
 def vtx(chk, prog, collect):
     VTXL = prog.fn_path("vtx", "Vtx::load")
     w = Walker(prog, loop_bound=2, max_paths=4000)
@@ -281,6 +430,7 @@ def vtx(chk, prog, collect):
                     bounded = any(c[0] in ("eq", "ne") and isinstance(c[1], T) and c[1].op == "ult" and (tm.syms(n) & tm.syms(c[1])) for c in r.pc)
                     chk.check(bounded, "ALLOC/Vtx::load/from_elem", "Vtx::load allocates %s bytes taken from the header without a bound" % tm.show(n))
                     chk.count("alloc-sites")
+    vtx_frequency_guard(chk, prog)
     # EOF rule: the header string scan with read() returning 0
     zero_read["on"] = True
     st = w.new_state()
